@@ -113,7 +113,12 @@ def run_kernel_check(prop, tier, kernels_wanted, solver_insts, reps, sample_coun
         from . import sfistamachine
         regs = [i for i in solver_insts if i.get("reg", "none") != "none"][:sample_counts.get("sfista_machine_runs", 8)]
         smach = sfistamachine.part(V, tier, wd, regs)
-    cov = dict(states=r["distinct"] + (mach["model_states"] if mach else 0), transitions=r["generated"] + (mach["model_transitions"] if mach else 0), kernel_machine=mach, sfista_machine=smach,
+    lmach = None
+    if "trsbox_geometry" in kernels_wanted:
+        # inside the bound-constrained geometry step: TrsboxLinear.tla (active-set loop) against monitored calls on the same class patterns
+        from . import linmachine
+        lmach = linmachine.part(V, tier, wd, [s for s in sel if s["kernel"] == "trsbox_geometry"][:sample_counts.get("lin_machine", 1500)])
+    cov = dict(states=r["distinct"] + (mach["model_states"] if mach else 0), transitions=r["generated"] + (mach["model_transitions"] if mach else 0), kernel_machine=mach, sfista_machine=smach, trsbox_linear_machine=lmach,
                class_patterns=len(sel), kernel_calls=ncalls, kernel_calls_inside_solver_runs=insolver,
                kernel_calls_inside_solver_runs_outside_scale_domain=outdom,
                traces_validated_against_impl=len(traces) + tcov["traces_validated_against_impl"], clause_failures=dict(hits, **tcov["clause_failures"]),
